@@ -92,7 +92,9 @@ func C04(p *load.Prog, r *report.Report) {
 		r.Undecided("C04.model", "layout", "", err.Error())
 		return
 	}
-	inherit(p, r, "C04", "C03", C03)
+	// the round trip needs the decoder to accept every canonical encoding and to reconstruct the encoded point; what
+	// it does with other inputs is C03's business only
+	inherit(p, r, "C04", "C03", C03, "C03.reject", "C03.state", "C03.model", "C03.anchor", "C03.decode")
 	P := symPt("")
 	xa, ya := affineSpec(P)
 	cx, cy := absint.CanonOf(FP, xa), absint.CanonOf(FP, ya)
